@@ -22,7 +22,9 @@ WORDS = ["a", "b", "c", "foo", "bar", "x1", "héllo", "\\AND", "ANDx", "and", "o
          "2015-12-19T22:30:45+02:00", "iso-8859-15",
          # characters that mean something to the machinery a message or an output goes through (%-formatting,
          # str.format, html, a comment sign): plain characters of a word here
-         "100%", "%s", "%(q)s", "50%d", "{0}", "{x}", "a&b", "#tag"]
+         "100%", "%s", "%(q)s", "50%d", "{0}", "{x}", "a&b", "#tag",
+         # a byte order mark is a character like another (of a word, when it touches one)
+         "\ufeffbom", "\ufeff", "x\ufeff"]
 PHRASES = ['"100% sure"', '"cafe\u0301 e\u0301"', '"a b"', '""', '"a\\"b"', '"x:y"', '"AND"', '"a (b) [c]"', '"é ü"', '" lead"', '"t\\\\"',
            '"a\tb"', '"wild*"']
 PHRASES_NL = ['"a\nb"']
@@ -238,7 +240,9 @@ TREE_WORDS = ["a", "b", "c", "foo", "*", "fo*", "a b", "=b", "T12", "30", "TO", 
               "AND", "é", "", "a\\ b", "foo\\ ", "\\ x", "e\u0301"]
 TREE_PHRASES = ['"100% sure"', '"cafe\u0301 e\u0301"', '"a b"', '""', '"x"', '"a\\"b"', '"c d e"']
 TREE_REGEX = ["/a/", "//", "/b c/"]
-TREE_FIELDS = ["f", "g", "a.b", "bad name", "é", "", "f1", "a.b.c", "T12", "xT07"]
+TREE_FIELDS = ["f", "g", "a.b", "bad name", "é", "", "f1", "a.b.c", "T12", "xT07",
+               # escapes in a field name, names starting with a digit, with a combining mark / a middle dot
+               "first\\ name", "a\\:b", "c\\-d", "2019", "1st_author", "007", "cafe\u0301", "a\u00b7b"]
 
 OPS = ["AndOperation", "OrOperation", "UnknownOperation", "BoolOperation"]
 UNARIES = ["Plus", "Not", "Prohibit"]
